@@ -281,6 +281,14 @@ func (p *Parser) parseArg(info *pOpcodeInfo, curObj *Object, argType pArgType) (
 	case pArgTypeByteData, pArgTypeWordData, pArgTypeDwordData, pArgTypeQwordData, pArgTypeString, pArgTypeNameString:
 		return p.parseSimpleArg(argType)
 	case pArgTypeByteList:
+		// A nested package that extends past the end of the package that
+		// contains it leaves the stream beyond the current package end; the
+		// length of the remaining bytes would then wrap around and move the
+		// stream backwards, making the parser visit the same bytes again.
+		if p.r.Offset() > p.r.pkgEnd {
+			return nil, parseResultFailed
+		}
+
 		argObj := p.objTree.newObject(pOpIntByteList, p.tableHandle)
 		p.parseByteList(argObj, p.r.pkgEnd-p.r.Offset())
 		return argObj, parseResultOk
